@@ -182,6 +182,59 @@ func (c *Ctx) findDispatch() (*ast.FuncDecl, *ast.ForStmt, *ast.SwitchStmt) {
 			})
 		}
 	}
+	if bestFd != nil {
+		return bestFd, bestFor, bestSw
+	}
+	// the dispatch in a function of its own (one instruction per call), the loop in its caller
+	var swFd *ast.FuncDecl
+	for _, f := range c.Bcl.Syntax {
+		for _, d := range f.Decls {
+			fd, ok := d.(*ast.FuncDecl)
+			if !ok || fd.Body == nil {
+				continue
+			}
+			ast.Inspect(fd.Body, func(n ast.Node) bool {
+				sw, ok := n.(*ast.SwitchStmt)
+				if !ok || sw.Tag == nil || !isNamed(c.typeOf(sw.Tag), bclPath, "opcode") {
+					return true
+				}
+				if bestSw == nil || len(sw.Body.List) > len(bestSw.Body.List) {
+					swFd, bestSw = fd, sw
+				}
+				return true
+			})
+		}
+	}
+	if swFd == nil || len(bestSw.Body.List) < 8 {
+		return nil, nil, nil
+	}
+	stepObj := c.Bcl.TypesInfo.Defs[swFd.Name]
+	for _, f := range c.Bcl.Syntax {
+		for _, d := range f.Decls {
+			fd, ok := d.(*ast.FuncDecl)
+			if !ok || fd.Body == nil || fd == swFd {
+				continue
+			}
+			for _, s := range fd.Body.List {
+				fs, ok := s.(*ast.ForStmt)
+				if !ok || fs.Cond != nil || fs.Init != nil || fs.Post != nil {
+					continue
+				}
+				calls := false
+				walkCalls(fs.Body, true, func(call *ast.CallExpr) {
+					if stepObj != nil && c.callee(call) == stepObj {
+						calls = true
+					}
+				})
+				if calls && bestFd == nil {
+					bestFd, bestFor = fd, fs
+				}
+			}
+		}
+	}
+	if bestFd == nil {
+		return nil, nil, nil
+	}
 	return bestFd, bestFor, bestSw
 }
 
@@ -299,6 +352,9 @@ func (c *Ctx) vmModel() (*vmModel, error) {
 		sig := fn.Type().(*types.Signature)
 		if sig.Recv() == nil || !(types.Identical(sig.Recv().Type(), c.typeOfRecv(fd)) || c.isVMHolder(sig.Recv().Type())) {
 			continue
+		}
+		if it.fd.Body.Pos() <= sw.Pos() && sw.End() <= it.fd.Body.End() {
+			continue // the method holding the dispatch itself: no helper
 		}
 		lit := &ast.FuncLit{Type: it.fd.Type, Body: it.fd.Body}
 		role := classifyClosure(c, in, st0, lit)
